@@ -146,6 +146,9 @@ func (f *Frame) call(in ssa.Instruction, cc *ssa.CallCommon, st *State) []Term {
 		return []Term{And(cs...)}
 	case "__base":
 		return []Term{args[0][0]}
+	case "__fresh":
+		// the backing array was allocated during this call (or the slice is nil)
+		return []Term{Or(Eq(args[0][0], IntLit(0)), Ge(args[0][0], c.alloc0))}
 	case "__oldEnter":
 		f.oldHeaps = append(f.oldHeaps, HeapSnap{st.Heap, st.Gen})
 		old := f.specOld()
@@ -554,7 +557,28 @@ func (f *Frame) applyContract(in ssa.Instruction, cc *ssa.CallCommon, callee *ss
 		c.addObl(&Obligation{Name: c.oblName(f.label, "rec-decreases"), Kind: "rec-decreases", Fn: f.label, Pos: f.posOf(pos), Text: "decreases " + blk.Dec.Text, Reach: st.Reach, Goal: And(Ge(d0, IntLit(0)), Lt(d1, d0)), Clause: blk.Dec})
 	}
 	old := snapOf(st)
+	f.pointwise = nil
+	if len(blk.Modifies) > 0 {
+		// frame clause: object fields of the named pointer parameters' types
+		// change only at those objects
+		f.pointwise = map[string][]Term{}
+		for _, m := range blk.Modifies {
+			for i, pn := range blk.ParamNames {
+				if pn != m || i >= len(callee.Params) {
+					continue
+				}
+				if pt, ok := callee.Params[i].Type().Underlying().(*types.Pointer); ok {
+					prefix := "H|" + typeKey(pt.Elem()) + "|"
+					f.pointwise[prefix] = append(f.pointwise[prefix], args[i][0])
+				}
+			}
+		}
+		if blk.Flags["trusted"] {
+			c.note("assumed", "assumed frame of "+blk.QualName()+": modifies only "+strings.Join(blk.Modifies, ", "))
+		}
+	}
 	f.havocFor(callee, blk, cc, st)
+	f.pointwise = nil
 	res := f.freshResults(cc, st, callee.Name())
 	var resVals [][]Term
 	rt := cc.Signature().Results()
@@ -627,6 +651,20 @@ func (f *Frame) havocKeys(ms *modSet, st *State) {
 	for _, k := range ks {
 		srt, ok := c.eng.keySorts[k]
 		if !ok {
+			continue
+		}
+		pointwise := false
+		for prefix, refs := range f.pointwise {
+			if strings.HasPrefix(k, prefix) {
+				cur := c.heapGet(st, k, srt)
+				for _, r := range refs {
+					cur = Store(cur, r, c.fresh("hvp", elemSort(srt)))
+				}
+				c.setHeap(st, k, c.define("heap", cur))
+				pointwise = true
+			}
+		}
+		if pointwise {
 			continue
 		}
 		c.setHeap(st, k, c.fresh("hv", srt))
